@@ -60,8 +60,16 @@ def leaf(u, relpath, struct_anchor, impl_anchor, tname, field, text_spec, from_f
 def build(u):
     for x in ["use vstd::string::StringSliceAdditionalSpecFns;", "use vstd::utf8::*;", "use std::borrow::Cow;", "use std::sync::Arc;", "use std::sync::OnceLock;"]:
         u.use(x)
+    u.header.insert(0, "#![feature(allocator_api)]")
     u.raw("broadcast use vstd::string::group_string_axioms;", ("glue", NAME))
     u.spec("concat_spec.rs")
+    # the forwarding impl behind `Arc<dyn Source>` (src/source.rs): what `children[i].source()` resolves to in the real crate
+    u.raw("impl Source for BoxSource {\n  open spec fn text(&self) -> Seq<u8> { (**self).text() }\n  open spec fn raw(&self) -> Seq<u8> { (**self).raw() }", ("glue", NAME))
+    for fn in ("source", "rope", "buffer", "size"):
+        m = u.method("src/source.rs", "impl Source for BoxSource {", fn)
+        m.body_start(fn, f"canary.BoxSource::{fn}", "canary", "proof { assert(false); }")
+        u.contracted.append((f"<BoxSource as Source>::{fn}", "src/source.rs"))
+    u.raw("}", ("glue", NAME))
     st = u.item("src/concat_source.rs", "pub struct ConcatSource {")
     u.raw("impl ConcatSource {", ("glue", NAME))
     ch = u.method("src/concat_source.rs", IMPL_C, "children")
